@@ -256,6 +256,59 @@ def replay(ctx, data):
     return False
 
 
+def meshops_cases(ctx, rng, n):
+    """MeshOps.v (vm_compute) against Mesh2D/Mesh3D.remove_vertices and remove_faces_only: same surviving vertices (by original
+    index), same renumbered faces, same face pattern, per-face areas filtered alike"""
+    cases, meta = [], []
+    def nl(xs): return core.coq_list(['%d%%nat' % x for x in xs])
+    def bl(xs): return core.coq_list(['true' if x else 'false' for x in xs])
+    for _ in range(n):
+        v, f = Bd.tri_quad_mesh2d(rng)
+        d3 = rng.random() < 0.5
+        mesh = Mesh3D([P3((p[0], p[1], 1.0)) for p in v], f) if d3 else Mesh2D([P2(p) for p in v], f)
+        areas = list(mesh.face_areas)           # fills the per-face cache that has to stay aligned
+        pat = [rng.random() < 0.8 for _ in v]
+        if not any(pat):
+            continue
+        try:
+            new, fp = mesh.remove_vertices(pat)
+        except AssertionError:
+            continue            # no face survives: the constructor rejects an empty face list
+        ids = [next(i for i, p in enumerate(mesh.vertices) if p is q_ or p == q_) for q_ in new.vertices]
+        if len(set(tuple(p) for p in v)) != len(v):
+            continue
+        faces_c = core.coq_list([nl(x) for x in f])
+        exp = '(%s, %s, %s)' % (nl(ids), core.coq_list([nl(x) for x in new.faces]), bl(fp))
+        cases.append('rv_eqb (remove_vertices (seq 0 %d) %s %s) %s' % (len(v), bl(pat), faces_c, exp))
+        meta.append(('remove_vertices', v, f, pat))
+        # per-face data stays aligned: the cached areas of the new mesh are the kept old ones
+        na = new._face_areas
+        if na is not None and not isinstance(na, (int, float)):
+            kept = [a for a, k in zip(areas, fp) if k]
+            if list(na) != kept:
+                ctx.corr_fail.append({'function': 'remove_vertices face_areas', 'input': repr((v, f, pat)), 'result': 'cached areas not aligned'})
+        fpat = [rng.random() < 0.7 for _ in f]
+        if any(fpat):
+            try:
+                new2 = mesh.remove_faces_only(fpat)
+            except AssertionError:
+                continue
+            cases.append('faces_eqb (remove_faces_only %s %s) %s' % (faces_c, bl(fpat), core.coq_list([nl(x) for x in new2.faces])))
+            meta.append(('remove_faces_only', v, f, fpat))
+    pre = ('Definition nl_eqb (a b : list nat) : bool := Nat.eqb (length a) (length b) && forallb (fun p => Nat.eqb (fst p) (snd p)) (combine a b).\n'
+           'Definition faces_eqb (a b : list (list nat)) : bool := Nat.eqb (length a) (length b) && forallb (fun p => nl_eqb (fst p) (snd p)) (combine a b).\n'
+           'Definition bl_eqb (a b : list bool) : bool := Nat.eqb (length a) (length b) && forallb (fun p => Bool.eqb (fst p) (snd p)) (combine a b).\n'
+           "Definition rv_eqb (a b : list nat * list (list nat) * list bool) : bool := let '(a1, a2, a3) := a in let '(b1, b2, b3) := b in "
+           'nl_eqb a1 b1 && faces_eqb a2 b2 && bl_eqb a3 b3.\n')
+    res = core.run_cases('C20_corr_mo', ['MeshOps'], pre, cases,
+                         header='From Coq Require Import List Bool Arith.\nImport ListNotations.\nFrom LBG Require Import MeshOps.\n')
+    ctx.corr_cases += len(cases)
+    for ok, m in zip(res, meta):
+        if ok is not True:
+            ctx.corr_fail.append({'function': 'Mesh.' + m[0], 'input': repr(m[1:]),
+                                  'result': 'model and implementation differ' if ok is False else 'model evaluation failed'})
+
+
 def correspond(ctx):
     """generated grid helpers (_grid_faces, _grid_vertices on dyadic data) vs the implementation"""
     rng = ctx.rng
@@ -282,3 +335,4 @@ def correspond(ctx):
         if ok is not True:
             ctx.corr_fail.append({'function': 'Mesh2D.' + m[0], 'input': repr(m[1:]),
                                   'result': 'model and implementation differ' if ok is False else 'model evaluation failed'})
+    meshops_cases(ctx, rng, ctx.n(60, 400))
